@@ -4,10 +4,12 @@ import (
 	"encoding/binary"
 	"fmt"
 	"hash/fnv"
+	"regexp"
 	"runtime"
 	"runtime/debug"
 	"strings"
 	"testing"
+	"time"
 
 	"github.com/ClickHouse/ch-go/proto"
 
@@ -20,8 +22,9 @@ import (
 func init() {
 	Register(&Prop{
 		ID: "C06", Engine: "B", Quick: 100000, Thorough: 5000000, Level: "exploration",
-		Rule: "each case = a valid encoding (a block of drawn columns for typed or inferred targets, a single column, or a protocol message incl. the server-side decoders Query/ClientInfo/ClientHello) damaged in transit by one to three drawn faults: a count/length/offset/key/meta/flag field located by a traced parse of the independent codec overwritten with 0, 1, 127/128, 2^16+-1, 2^31, 2^63-1, 2^64-1 or the value +-1; bit flips; a segment duplicated, dropped or swapped; two encodings glued together; decoded in a worker process that runs under an address-space limit (ulimit -v) with the library's row cap lowered in the scratch copy; oracle = no panic (recovered and attributed to the innermost library frame), no process death (attributed by the parent to the case in progress), bounded allocation, and on success every column reports the block's row count and every row accessor works for every index; distinct = distinct damaged streams; non-trivial = the damaged stream differs from the valid one",
-		Run:  runC06,
+		Rule:     "each case = a valid encoding (a block of drawn columns for typed or inferred targets, a single column, or a protocol message incl. the server-side decoders Query/ClientInfo/ClientHello) damaged in transit by one to three drawn faults: a count/length/offset/key/meta/flag field located by a traced parse of the independent codec overwritten with 0, 1, 127/128, 2^16+-1, 2^31, 2^63-1, 2^64-1 or the value +-1; bit flips; a segment duplicated, dropped or swapped; two encodings glued together; decoded in a worker process that runs under an address-space limit (ulimit -v) with the library's row cap lowered in the scratch copy; oracle = no panic (recovered and attributed to the innermost library frame), no process death (attributed by the parent to the case in progress), bounded allocation, and on success every column reports the block's row count and every row accessor works for every index; distinct = distinct damaged streams; non-trivial = the damaged stream differs from the valid one",
+		Run:      runC06,
+		SlowCase: 60 * time.Second, // a 16 MB type string takes the library seconds to refuse
 		OnDeath: func(r *Result) {
 			if r.Outcome != "died" {
 				return
@@ -35,8 +38,17 @@ func init() {
 					break
 				}
 			}
+			if strings.Contains(msg, "stack overflow") {
+				frame = "" // where the limit is hit is arbitrary; the recursion is what matters
+			}
 			r.Outcome = "violation"
 			r.Clause = "process-died"
+			// sizes and usage figures in the runtime's message vary from process to process
+			msg = regexp.MustCompile(`[0-9]+`).ReplaceAllString(msg, "N")
+			if i := strings.Index(msg, "out of memory"); i >= 0 {
+				msg = msg[:i+len("out of memory")]
+				frame = ""
+			}
 			r.Key = "died:" + msg + ":" + frame
 		},
 	})
@@ -62,7 +74,7 @@ func c06Build(c *choice.Stream) *c06Case {
 	if c.Bool("rev.old", 1, 4) {
 		rev = revMenu()[c.Draw("rev", len(revMenu()))]
 	}
-	kind := []string{"block", "block-auto", "column", "message"}[c.Weighted("kind", 6, 3, 3, 3)]
+	kind := []string{"block", "block-auto", "column", "message", "hostile-type"}[c.Weighted("kind", 6, 3, 3, 3, 1)]
 	cs.desc["kind"], cs.desc["revision"] = kind, rev
 	switch kind {
 	case "block", "block-auto":
@@ -144,6 +156,89 @@ func c06Build(c *choice.Stream) *c06Case {
 				rts = append(rts, x.RT)
 			}
 			return b.Rows, raw, rts, nil
+		}
+	case "hostile-type":
+		// A block header whose column type string is itself the attack: the type
+		// comes from the wire and drives inference (recursion depth, sizes parsed
+		// out of it). Everything else about the block is small and valid.
+		var ty string
+		depth := c.Pick("ht.depth", 3, 40, 1000, 30000)
+		if c.Bool("ht.verydeep", 1, 100) {
+			depth = 2300000 // about 16 MB of type string, still below the string cap
+		}
+		wrappers := []string{"Array(", "Nullable(", "LowCardinality(", "Map(String, ", "Tuple("}
+		inner := []string{"UInt8", "String", "Nothing", "FixedString(8)", ""}[c.Draw("ht.inner", 5)]
+		switch c.Draw("ht.shape", 5) {
+		case 0, 1:
+			w := wrappers[c.Draw("ht.wrapper", len(wrappers))]
+			closing := depth
+			if c.Bool("ht.unbalanced", 1, 4) {
+				closing = c.Draw("ht.closing", depth+1)
+			}
+			ty = strings.Repeat(w, depth) + inner + strings.Repeat(")", closing)
+		case 2:
+			var sb strings.Builder
+			d := min(depth, 30000)
+			for i := 0; i < d; i++ {
+				sb.WriteString(wrappers[c.Draw("ht.mix", 3)])
+			}
+			sb.WriteString(inner)
+			sb.WriteString(strings.Repeat(")", d))
+			ty = sb.String()
+		case 3:
+			n := []string{"0", "1", "-1", "255", "65536", "2147483648", "1099511627776", "9223372036854775807", "18446744073709551616", "1e9", ""}[c.Draw("ht.n", 11)]
+			ty = []string{"FixedString(%s)", "DateTime64(%s)", "Decimal(%s, 2)", "Decimal(9, %s)", "Decimal32(%s)", "DateTime64(%s, 'UTC')", "Array(FixedString(%s))", "Enum8('a' = %s)", "Enum16('a' = %s, 'b' = %s)"}[c.Draw("ht.param", 9)]
+			ty = strings.ReplaceAll(ty, "%s", n)
+		default:
+			ty = []string{"Enum8(", "Enum8()", "Enum8('a')", "Enum8('a' = )", "Enum8('a' = 1, 'a' = 2)", "Enum16('' = 1)", "DateTime('Nowhere/Land')", "DateTime64(3, '')", "Map(String)", "Map(,)", "Tuple()", "Tuple(,)", "()", "(", ")", "Array", "Array()", "Nullable()", "LowCardinality()", "LowCardinality(Nullable())", "IntervalFortnight", "Interval", "Nested(a UInt8)", "SimpleAggregateFunction(sum, UInt64)", "\x00", "Array(\x00)"}[c.Draw("ht.odd", 26)]
+		}
+		rows := c.Pick("ht.rows", 0, 1, 3)
+		var w refproto.W
+		if rev >= refproto.RevBlockInfo {
+			w.UVarint(1)
+			w.Bool(false)
+			w.UVarint(2)
+			w.I32(-1)
+			w.UVarint(0)
+		}
+		w.UVarint(1)
+		w.UVarint(uint64(rows))
+		w.Str("c")
+		w.Str(ty)
+		if rev >= refproto.RevCustomSerialization {
+			w.Byte(0)
+		}
+		w.B = append(w.B, c.Bytes("ht.data", c.Pick("ht.datalen", 0, 3, 64))...)
+		cs.valid = w.B
+		cs.key = "hostile-type"
+		shown := ty
+		if len(shown) > 80 {
+			shown = fmt.Sprintf("%s...(%d bytes)", shown[:60], len(ty))
+		}
+		typed := c.Bool("ht.typed", 1, 3)
+		cs.desc["type"], cs.desc["rows"], cs.desc["typed_target"] = shown, rows, typed
+		cs.decode = func(data []byte) (int, []proto.Column, []*refproto.Type, error) {
+			rd := proto.NewReader(&simio.FaultyReader{Data: data})
+			var b proto.Block
+			if typed {
+				// a typed target is asked to adopt the type from the wire
+				tgt := proto.Results{{Name: "c", Data: new(proto.ColStr).Array()}}
+				if err := b.DecodeBlock(rd, rev, tgt); err != nil {
+					return 0, nil, nil, err
+				}
+				return b.Rows, []proto.Column{tgt[0].Data.(proto.Column)}, nil, nil
+			}
+			var res proto.Results
+			if err := b.DecodeBlock(rd, rev, res.Auto()); err != nil {
+				return 0, nil, nil, err
+			}
+			var out []proto.Column
+			for _, rc := range res {
+				if col, ok := rc.Data.(proto.Column); ok {
+					out = append(out, col)
+				}
+			}
+			return b.Rows, out, nil, nil
 		}
 	case "column":
 		col := DrawCols(c, "col", 1, 2)[0]
@@ -325,6 +420,9 @@ func runC06(t *testing.T, c *choice.Stream, r *Result, opt RunOpt) {
 	data := cs.valid
 	var what []string
 	nd := c.Weighted("ndamage", 6, 2, 1) + 1
+	if cs.key == "hostile-type" && !c.Bool("ht.damage", 1, 4) {
+		nd = 0 // the type string is the damage
+	}
 	for i := 0; i < nd; i++ {
 		var d string
 		fields := cs.fields
@@ -337,7 +435,7 @@ func runC06(t *testing.T, c *choice.Stream, r *Result, opt RunOpt) {
 	h := fnv.New64a()
 	h.Write(data)
 	r.Digest = fmt.Sprintf("%016x", h.Sum64())
-	r.NonTriv = string(data) != string(cs.valid)
+	r.NonTriv = string(data) != string(cs.valid) || cs.key == "hostile-type"
 	r.Cell = fmt.Sprint(cs.desc["kind"])
 	cs.desc["damage"] = what
 	cs.desc["bytes"] = len(data)
